@@ -119,6 +119,45 @@ def unit(u, res):
             if verdict == 'sat':
                 res.sat.append(dict(key='assignment operator does not fail with ContextNotMutable under a shared context', op=opname,
                                     witness='Operator::eval(%s, %s) in %s context -> %s' % (opname, shapes, ctxkind, render_result(C.meta, p.value, model) if p.kind == 'return' else 'panic')))
+    elif kind == 'assign_userctx':
+        # Operator::eval_mut of an assignment operator on a user-defined context without variable storage (its set_value is the trait default,
+        # which the default_set_value unit shows to fail with ContextNotMutable always: assumed here, guaranteed there; its get_value is a havoc
+        # stub that may serve exactly the value being written): no path may report success, and a path that reaches the write must write
+        _, opname, sh, timeout_ms, seed = u
+        pr = checklib.Prover(res, timeout_ms)
+        body = C.method('Operator', 'eval_mut')
+        cons = []
+        v, s = make_value(C, sh, 'v', cons)
+        w, ws = make_value(C, sh, 'w', cons)
+        ex = C.new_exec()
+
+        def uctx_stub(ex_, st, c, args):
+            m = c.split('::')[-1]
+            st.log.append(('ctxcall', m))
+            if m == 'get_value':
+                t = ex_.branch(st, [(z3.Bool('uc_has'), 'some'), (z3.Not(z3.Bool('uc_has')), 'none')])
+                return some(Ref(st.new_cell(copy_value(w)), [])) if t == 'some' else none()
+            if m == 'are_builtin_functions_disabled':
+                return z3.Bool('uc_disabled')
+            if m == 'set_value':
+                return err(Adt('EvalexprError', C.VI('EvalexprError', 'ContextNotMutable'), []))
+            raise Unsupported('user context asked %s' % c)
+        ex.overrides.append((re.compile(r'<(Self|C|.*UserContext.*) as (context::)?(Context|ContextWithMutableVariables)>::\w+'), uctx_stub))
+        ex, outs = C.run(body, lambda st: [ref_to(st, make_op(C, opname, '-')), ref_to(st, VecV([C.v_str('x'), copy_value(v)])),
+                                           ref_to(st, Adt('UserContext', 0, [mkunit()]), mut=True)], pc=cons, ex=ex)
+        res.paths += len(outs)
+        res.bodies |= ex.bodies_used
+        for p in outs:
+            res.nontrivial_paths += 1
+            claim = z3.BoolVal(p.kind == 'return' and p.value.variant == 1)
+            verdict, model = pr.prove('%s on a storage-less user context' % opname, p.pc, claim)
+            if verdict == 'sat':
+                res.sat.append(dict(key='assignment through a context without variable storage reports success', default_set_value=True,
+                                    witness='Operator::eval_mut(%s, ["x", %s]) on a storage-less user context whose get_value(x) = %s -> %s'
+                                            % (opname, render_value(C.meta, v, model), render_value(C.meta, w, model) if any(e == ('ctxcall', 'get_value') for e in p.log) else 'not asked',
+                                               render_result(C.meta, p.value, model) if p.kind == 'return' else 'panic')))
+        if len(res.samples) < 1:
+            res.samples.append(dict(unit='%s[%s] on a storage-less user context' % (opname, sh), paths=len(outs)))
     elif kind == 'default_set_value':
         pr = checklib.Prover(res, u[-2])
         body = C.p.trait_default('ContextWithMutableVariables', 'set_value')
@@ -247,6 +286,8 @@ def main():
                 units.append(('assign_ro', op, shapes, ck, timeout_ms, seed))
     for sh in eshapes:
         units.append(('default_set_value', sh, timeout_ms, seed))
+        for op in ASSIGN:
+            units.append(('assign_userctx', op, sh, timeout_ms, seed))
     tunits, maxk, _ = c08.make_units(tier, seed, PID)
     units += [('tree', t) for t in tunits]
     random.Random(seed).shuffle(units)
